@@ -13,6 +13,13 @@ TRUSTED = [
     "Go harness harness/cmd/hC08 + harness/internal/storectl (child control), projection of the strace log to the "
     "fraction's files, registry parser that recovers the index sections",
     "sizes of the Write calls (compressed blocks) are data supplied per case: zstd and block packing are not modelled",
+    "hand-written model props/C08/coq/ModelGen.v: seal under ANY set of failing writes (seal_fs) and the four block "
+    "generators of frac/disk_blocks_producer.go with every push site transcribed (getLIDsBlockGenerator: full-block and "
+    "rest-of-field sites, getIDsBlocksGenerator, getTokensBlocksGenerator, getTokenTableBlocksGenerator); their inputs "
+    "(LIDs per token, field sizes, token counts) are derived by the harness from the corpus",
+    "strace fault injection (-e inject=write:error=EIO:when=k -P <fraction>._index, sealing goroutine locked to one OS "
+    "thread; the strace log must show the injection, otherwise the run is discarded) for the single transient write "
+    "failure inside the real fm.seal",
 ]
 ASSUME = [
     "the SkipSortDocs setting does not change between restarts (a .sdocs left by an interrupted sorted seal next to "
@@ -22,13 +29,27 @@ ASSUME = [
     "on every crash state by fetching every document and running token queries after a real restart",
     "documents appended before the seal are durable (acknowledged after fsync: C01); power loss is applied to the "
     "files written by the seal only",
+    "the push functions of the writers (writeIDsBlocks: three flushes per block, writeLIDsBlocks: one, writeTokensBlocks / "
+    "writeTokenTableBlocks: size-dependent flushes) are not transcribed separately: a push is the sequence of its Write "
+    "calls in the plan, tied to the generator models by the CShape cases (one LIDs write per generator block, three IDs "
+    "writes per block) and exercised by failing every single write",
 ]
 RULE = ("per corpus (random documents/tokens/bulks, SkipSortDocs on and off): the real rotate+seal in a child under "
         "strace; EVERY prefix of its operation sequence, torn variants of every write, power-loss variants wherever a "
         "file is not durable, each restarted in a fresh child with every document fetched and token queries run; a "
         "second seal attempt (leftovers present) on states that came up active, explored again; writeSealedFraction "
-        "with the k-th Write failing for EVERY k (partial writes included); the real fm.seal under RLIMIT_FSIZE. "
-        "non-trivial = crash inside the sequence (j>0) / fault on an existing write / limit that bites; distinct by input")
+        "with the k-th Write failing for EVERY k (transient = only that write, and persistent; partial writes included) "
+        "and under random SETS of failing writes; the real fm.seal under RLIMIT_FSIZE; the four real block generators "
+        "under push oracles (every single push call failing once, persistent failures, random sets) with small block "
+        "capacities (so that the 'block is full' push site is taken on every corpus, at token / field boundaries) and "
+        "the real ones; corpora of IDsBlockSize-1 / IDsBlockSize documents and with fields at 16384 / 16385 token bytes; "
+        "ONE corpus per run with more than LIDBlockCap (65536) documents sharing tokens (full LID block that is "
+        "continued / ends its field / ends a token / falls inside a token): a single transient failure of every write "
+        "of its LIDs section (+ a sample of the others in the quick tier, all in the thorough tier) through "
+        "writeSealedFraction, and through the real rotate + fm.seal in a child with one injected write(2) error: "
+        "an error must come back / nothing published, .docs and .meta byte-identical. "
+        "non-trivial = crash inside the sequence (j>0) / fault or failing push on an existing write or call / limit "
+        "that bites; distinct by input")
 
 
 def harness_args(tier, seed, outdir):
